@@ -45,6 +45,70 @@ def run(ctx) -> None:
     from . import c03
     c03.original_reads(ctx, "C05.R8")
     r.floor("C05.R8", 2)
+    r10_renderers_are_pure(ctx)
+
+
+RENDERERS = ("sigma.types.SigmaString.convert", "sigma.types.SigmaString.to_regex", "sigma.types.SigmaString.to_plain", "sigma.types.SigmaString.__str__",
+             "sigma.types.SigmaRegularExpression.escape", "sigma.types.SigmaRegularExpression.to_plain", "sigma.types.SigmaRegularExpression.__str__")
+SELF_MUTATORS = {"append", "extend", "insert", "pop", "remove", "clear", "update", "add", "discard", "setdefault", "sort", "reverse", "popitem"}
+
+
+def r10_renderers_are_pure(ctx) -> None:
+    """A rendering depends on the value and on the target configuration handed in (escape character, wildcard tokens, extra
+    escaped characters, flags). A renderer that writes to the value can only do so to remember something for the next call,
+    and the next call may be for another configuration (another backend, another template of the same backend)."""
+    r, prog = ctx.r, ctx.prog
+    r.rule("C05.R10", "renderings are functions of the value and the target configuration: no rendering method of a value type (convert, to_regex, to_plain, escape, __str__ and what they call on the value) stores to the value or mutates one of its attributes")
+    roots = [q for q in RENDERERS if q in prog.funcs]
+    if len(roots) < 5:
+        raise AnalysisError(f"C05.R10: rendering methods not found ({len(roots)} of {len(RENDERERS)})")
+    reach = ctx.cg.reachable(roots)
+    n = 0
+    for q in sorted(x for x in reach if x in prog.funcs and x.startswith("sigma.types.")):
+        fi = prog.funcs[q]
+        if fi.cls is None or fi.name in ("__init__", "__post_init__", "__new__"):
+            continue
+        if not any(p_ == "self" for p_ in fi.params()):
+            continue
+        n += 1
+        bad = []
+        memo_ok: list = []
+        for x in walk_no_nested(fi.node):
+            if isinstance(x, (ast.Attribute, ast.Subscript)) and isinstance(x.ctx, (ast.Store, ast.Del)):
+                root = x
+                while isinstance(root, (ast.Attribute, ast.Subscript)):
+                    root = root.value
+                if isinstance(root, ast.Name) and root.id == "self":
+                    # a memo table whose key names every parameter of the method keeps renderings for different configurations apart
+                    params = {p_ for p_ in fi.params() if p_ != "self"}
+                    if isinstance(x, ast.Subscript) and isinstance(x.ctx, ast.Store) and params:
+                        names = {n_.id for n_ in ast.walk(x.slice) if isinstance(n_, ast.Name)}
+                        for _ in range(3):
+                            for nm in list(names):
+                                for v_ in assignments_to(fi.node, nm):
+                                    if isinstance(v_, ast.expr):
+                                        names |= {n_.id for n_ in ast.walk(v_) if isinstance(n_, ast.Name)}
+                        if params <= names:
+                            memo_ok.append(x)
+                            continue
+                    bad.append(x)
+            elif isinstance(x, ast.Call) and isinstance(x.func, ast.Attribute) and x.func.attr in SELF_MUTATORS:
+                root = x.func.value
+                depth = 0
+                while isinstance(root, (ast.Attribute, ast.Subscript)):
+                    root = root.value
+                    depth += 1
+                if isinstance(root, ast.Name) and root.id == "self" and depth >= 1:
+                    bad.append(x)
+            elif isinstance(x, ast.Call) and call_name(x) in ("setattr", "object.__setattr__") and x.args and unparse(x.args[0]) == "self":
+                bad.append(x)
+        if bad:
+            for b in bad:
+                r.violation("C05.R10", q, short(prog.enclosing_stmt(b), 110), f"a rendering method writes to the value it renders (reached from {', '.join(t.rsplit('.', 2)[-2] + '.' + t.rsplit('.', 1)[-1] for t in ctx.cg.path_to(reach, q)[:1])}): what it keeps is handed to the next rendering, which may be for another target configuration (other escaped characters, another quote or escape character)", f"{fi.module.relpath}:{b.lineno}")
+        else:
+            r.ok("C05.R10", q, "no store to self, no mutating call on an attribute of self" + (f" ({len(memo_ok)} store(s) into a table keyed by every parameter)" if memo_ok else ""), fi.loc)
+    r.analysed["C05.rendering_methods_checked_for_purity"] = n
+    r.floor("C05.R10", 5)
 
 
 def r1_target_escaping(ctx) -> None:
